@@ -14,9 +14,9 @@ package cosmoslane
 // ---------------------------------------------------------------------------------------------
 //@ func (ead CLRejectEthereumMsgsDecorator) AnteHandle(ctx sdk.Context, tx sdk.Tx, simulate bool, next sdk.AnteHandler) (newCtx sdk.Context, err error)
 //@   modifies everything
-//@   ensures[C07.eth_passes] single(payload(tx)) ==> (hcN[0] == old(hcN[0]) + 1 && hcKind[old(hcN[0])] == 0 && hcCallee[old(hcN[0])] == next && hcCtx[old(hcN[0])] == ctx && hcTxTag[old(hcN[0])] == typeof(tx) && hcTx[old(hcN[0])] == payload(tx) && hcSim[old(hcN[0])] == simulate && newCtx == hcResCtx[old(hcN[0])] && typeof(err) == hcResErrTag[old(hcN[0])] && payload(err) == hcResErr[old(hcN[0])])
+//@   ensures[C07.eth_passes] single(payload(tx)) ==> (hcN[0] == old(hcN[0]) + 1 && hcKind[old(hcN[0])] == 0 && hcCallee[old(hcN[0])] == next && hcCtx[old(hcN[0])] == ctx && hcTxTag[old(hcN[0])] == typeof(tx) && hcTx[old(hcN[0])] == payload(tx) && hcSim[old(hcN[0])] == simulate && newCtx == hcResCtx[old(hcN[0])] && typeof(err) == hcResErrTag[old(hcN[0])] && payload(err) == hcResErr[old(hcN[0])] && hcSawFlagNonce[old(hcN[0])] == old(trFlagNonce[layer(ctx)]) && hcSawFlagPaid[old(hcN[0])] == old(trFlagPaid[layer(ctx)]) && hcSawSeq[old(hcN[0])] == old(acctSeq[layer(ctx)]))
 //@   ensures[C07.mixed_rejected] (!single(payload(tx)) && hasEthMsg(payload(tx))) ==> (hcN[0] == old(hcN[0]) && err != nil && newCtx == ctx)
-//@   ensures[C07.cosmos_continues] (!single(payload(tx)) && !hasEthMsg(payload(tx))) ==> (hcN[0] == old(hcN[0]) + 1 && hcKind[old(hcN[0])] == 0 && hcCallee[old(hcN[0])] == next && hcCtx[old(hcN[0])] == ctx && hcTxTag[old(hcN[0])] == typeof(tx) && hcTx[old(hcN[0])] == payload(tx) && hcSim[old(hcN[0])] == simulate && newCtx == hcResCtx[old(hcN[0])] && typeof(err) == hcResErrTag[old(hcN[0])] && payload(err) == hcResErr[old(hcN[0])])
+//@   ensures[C07.cosmos_continues] (!single(payload(tx)) && !hasEthMsg(payload(tx))) ==> (hcN[0] == old(hcN[0]) + 1 && hcKind[old(hcN[0])] == 0 && hcCallee[old(hcN[0])] == next && hcCtx[old(hcN[0])] == ctx && hcTxTag[old(hcN[0])] == typeof(tx) && hcTx[old(hcN[0])] == payload(tx) && hcSim[old(hcN[0])] == simulate && newCtx == hcResCtx[old(hcN[0])] && typeof(err) == hcResErrTag[old(hcN[0])] && payload(err) == hcResErr[old(hcN[0])] && hcSawFlagNonce[old(hcN[0])] == old(trFlagNonce[layer(ctx)]) && hcSawFlagPaid[old(hcN[0])] == old(trFlagPaid[layer(ctx)]) && hcSawSeq[old(hcN[0])] == old(acctSeq[layer(ctx)]))
 //@ loop 1
 //@   invariant -1 <= rangeindex && (forall j int :: (0 <= j && j <= rangeindex) ==> !isEthMsgAt(payload(tx), j))
 
@@ -56,8 +56,8 @@ package cosmoslane
 //@   requires forall m *authz.MsgExec :: execListOf(m) == base(m.Msgs)
 //@   requires rmd.disabledNestedMsgs != nil
 //@   modifies everything
-//@   ensures[C07.eth_passes] single(payload(tx)) ==> (hcN[0] == old(hcN[0]) + 1 && hcKind[old(hcN[0])] == 0 && hcCallee[old(hcN[0])] == next && hcCtx[old(hcN[0])] == ctx && hcTxTag[old(hcN[0])] == typeof(tx) && hcTx[old(hcN[0])] == payload(tx) && hcSim[old(hcN[0])] == simulate && newCtx == hcResCtx[old(hcN[0])] && typeof(err) == hcResErrTag[old(hcN[0])] && payload(err) == hcResErr[old(hcN[0])])
-//@   ensures[C07.cosmos_next_or_reject] !single(payload(tx)) ==> ((hcN[0] == old(hcN[0]) + 1 && hcKind[old(hcN[0])] == 0 && hcCallee[old(hcN[0])] == next && hcCtx[old(hcN[0])] == ctx && hcTxTag[old(hcN[0])] == typeof(tx) && hcTx[old(hcN[0])] == payload(tx) && hcSim[old(hcN[0])] == simulate && newCtx == hcResCtx[old(hcN[0])] && typeof(err) == hcResErrTag[old(hcN[0])] && payload(err) == hcResErr[old(hcN[0])]) || (hcN[0] == old(hcN[0]) && err != nil && newCtx == ctx))
+//@   ensures[C07.eth_passes] single(payload(tx)) ==> (hcN[0] == old(hcN[0]) + 1 && hcKind[old(hcN[0])] == 0 && hcCallee[old(hcN[0])] == next && hcCtx[old(hcN[0])] == ctx && hcTxTag[old(hcN[0])] == typeof(tx) && hcTx[old(hcN[0])] == payload(tx) && hcSim[old(hcN[0])] == simulate && newCtx == hcResCtx[old(hcN[0])] && typeof(err) == hcResErrTag[old(hcN[0])] && payload(err) == hcResErr[old(hcN[0])] && hcSawFlagNonce[old(hcN[0])] == old(trFlagNonce[layer(ctx)]) && hcSawFlagPaid[old(hcN[0])] == old(trFlagPaid[layer(ctx)]) && hcSawSeq[old(hcN[0])] == old(acctSeq[layer(ctx)]))
+//@   ensures[C07.cosmos_next_or_reject] !single(payload(tx)) ==> ((hcN[0] == old(hcN[0]) + 1 && hcKind[old(hcN[0])] == 0 && hcCallee[old(hcN[0])] == next && hcCtx[old(hcN[0])] == ctx && hcTxTag[old(hcN[0])] == typeof(tx) && hcTx[old(hcN[0])] == payload(tx) && hcSim[old(hcN[0])] == simulate && newCtx == hcResCtx[old(hcN[0])] && typeof(err) == hcResErrTag[old(hcN[0])] && payload(err) == hcResErr[old(hcN[0])] && hcSawFlagNonce[old(hcN[0])] == old(trFlagNonce[layer(ctx)]) && hcSawFlagPaid[old(hcN[0])] == old(trFlagPaid[layer(ctx)]) && hcSawSeq[old(hcN[0])] == old(acctSeq[layer(ctx)])) || (hcN[0] == old(hcN[0]) && err != nil && newCtx == ctx))
 //@   ensures[C07.nested_clean,C16.nested_clean] !single(payload(tx)) ==> ((hcN[0] == old(hcN[0]) + 1) == (forall i int :: (0 <= i && i < txNMsgs(payload(tx))) ==> cleanMsg(old(keys(rmd.disabledNestedMsgs)), txMsgTag(payload(tx), i), txMsgObj(payload(tx), i), 1)))
 
 // The screening set is exactly the configured list (and the map is allocated: precondition of the two functions above).
@@ -82,8 +82,8 @@ package cosmoslane
 //@   requires forall m *vestingtypes.MsgCreatePeriodicVestingAccount :: vestTo(type(*vestingtypes.MsgCreatePeriodicVestingAccount), m) == m.ToAddress
 //@   requires forall m *vestingtypes.MsgCreatePermanentLockedAccount :: vestTo(type(*vestingtypes.MsgCreatePermanentLockedAccount), m) == m.ToAddress
 //@   modifies everything
-//@   ensures[C07.eth_passes] single(payload(tx)) ==> (hcN[0] == old(hcN[0]) + 1 && hcKind[old(hcN[0])] == 0 && hcCallee[old(hcN[0])] == next && hcCtx[old(hcN[0])] == ctx && hcTxTag[old(hcN[0])] == typeof(tx) && hcTx[old(hcN[0])] == payload(tx) && hcSim[old(hcN[0])] == simulate && newCtx == hcResCtx[old(hcN[0])] && typeof(err) == hcResErrTag[old(hcN[0])] && payload(err) == hcResErr[old(hcN[0])])
-//@   ensures[C16.cosmos_next_or_reject] !single(payload(tx)) ==> ((hcN[0] == old(hcN[0]) + 1 && hcKind[old(hcN[0])] == 0 && hcCallee[old(hcN[0])] == next && hcCtx[old(hcN[0])] == ctx && hcTxTag[old(hcN[0])] == typeof(tx) && hcTx[old(hcN[0])] == payload(tx) && hcSim[old(hcN[0])] == simulate && newCtx == hcResCtx[old(hcN[0])] && typeof(err) == hcResErrTag[old(hcN[0])] && payload(err) == hcResErr[old(hcN[0])]) || (hcN[0] == old(hcN[0]) && err != nil && newCtx == ctx))
+//@   ensures[C07.eth_passes] single(payload(tx)) ==> (hcN[0] == old(hcN[0]) + 1 && hcKind[old(hcN[0])] == 0 && hcCallee[old(hcN[0])] == next && hcCtx[old(hcN[0])] == ctx && hcTxTag[old(hcN[0])] == typeof(tx) && hcTx[old(hcN[0])] == payload(tx) && hcSim[old(hcN[0])] == simulate && newCtx == hcResCtx[old(hcN[0])] && typeof(err) == hcResErrTag[old(hcN[0])] && payload(err) == hcResErr[old(hcN[0])] && hcSawFlagNonce[old(hcN[0])] == old(trFlagNonce[layer(ctx)]) && hcSawFlagPaid[old(hcN[0])] == old(trFlagPaid[layer(ctx)]) && hcSawSeq[old(hcN[0])] == old(acctSeq[layer(ctx)]))
+//@   ensures[C16.cosmos_next_or_reject] !single(payload(tx)) ==> ((hcN[0] == old(hcN[0]) + 1 && hcKind[old(hcN[0])] == 0 && hcCallee[old(hcN[0])] == next && hcCtx[old(hcN[0])] == ctx && hcTxTag[old(hcN[0])] == typeof(tx) && hcTx[old(hcN[0])] == payload(tx) && hcSim[old(hcN[0])] == simulate && newCtx == hcResCtx[old(hcN[0])] && typeof(err) == hcResErrTag[old(hcN[0])] && payload(err) == hcResErr[old(hcN[0])] && hcSawFlagNonce[old(hcN[0])] == old(trFlagNonce[layer(ctx)]) && hcSawFlagPaid[old(hcN[0])] == old(trFlagPaid[layer(ctx)]) && hcSawSeq[old(hcN[0])] == old(acctSeq[layer(ctx)])) || (hcN[0] == old(hcN[0]) && err != nil && newCtx == ctx))
 //@   ensures[C16.needs_proof] !single(payload(tx)) ==> ((hcN[0] == old(hcN[0]) + 1) == (forall i int :: (0 <= i && i < txNMsgs(payload(tx)) && isVestingCreate(txMsgTag(payload(tx), i))) ==> old(vauthProof[layer(ctx)])[bech32Bytes(vestTo(txMsgTag(payload(tx), i), txMsgObj(payload(tx), i)))]))
 //@ loop 1
 //@   invariant -1 <= rangeindex && hcN[0] == old(hcN[0]) && vauthProof[layer(ctx)] == old(vauthProof[layer(ctx)]) && (forall j int :: (0 <= j && j <= rangeindex && isVestingCreate(txMsgTag(payload(tx), j))) ==> vauthProof[layer(ctx)][bech32Bytes(vestTo(txMsgTag(payload(tx), j), txMsgObj(payload(tx), j)))])
